@@ -81,6 +81,14 @@ pub fn hot_kind(tag: usize, kind: u32) -> Obs {
       SIBLINGS.with(|x| x.borrow_mut().push(tag));
       s.clone().actual_subscribe(Dummy).unsubscribe();
     }
+    if kind == 3 {
+      // kind 3: the Subject that is fed is upstream of a second Subject used as a relay observer
+      // (`upstream.actual_subscribe(relay)`); the pipeline under test subscribes to the relay
+      SIBLINGS.with(|x| x.borrow_mut().push(tag));
+      let relay: Subject<'static, Val, Val> = Subject::default();
+      std::mem::forget(s.clone().actual_subscribe(relay.clone()));
+      return relay.box_it();
+    }
     s.box_it()
   }
 }
@@ -93,6 +101,12 @@ pub fn hot_kind_t(tag: usize, kind: u32) -> ObsT {
     if kind == 2 {
       SIBLINGS.with(|x| x.borrow_mut().push(tag));
       s.clone().actual_subscribe(Dummy).unsubscribe();
+    }
+    if kind == 3 {
+      SIBLINGS.with(|x| x.borrow_mut().push(tag));
+      let relay: SubjectThreads<Val, Val> = SubjectThreads::default();
+      std::mem::forget(s.clone().actual_subscribe(relay.clone()));
+      return relay.box_it();
     }
     s.box_it()
   }
